@@ -76,13 +76,18 @@ def run_case(case):
             # DataFrame.attrs travel in the same key-value list (key PANDAS_ATTRS): they must not displace the user's keys
             df.attrs = {"source": "unit é", "n": 3}
             counters["frames_with_attrs"] = 1
-        kw = {"custom_metadata": dict(init), "row_group_offsets": max(1, n // case["nrg"])}
+        given = dict(init)
+        kw = {"custom_metadata": given, "row_group_offsets": max(1, n // case["nrg"])}
         if target == "data":
             fastparquet.write(path, df, **kw)
             fpath = path
         else:
             fastparquet.write(path, df, file_scheme="hive", **kw)
             fpath = os.path.join(path, "_metadata")
+        if given != init:
+            # the dict is the caller's: what the write adds for itself (the frame's attrs) must not end up in it (and so in the next write)
+            res["failures"].append({"kind": "write_changed_the_callers_metadata_dict", "added": [str(k)[:20] for k in given if k not in init][:4], "frame_has_attrs": bool(df.attrs)})
+        counters["callers_dicts_compared"] = 1
         # ---- write-time metadata verbatim
         pf = fastparquet.ParquetFile(path)
         got = {b(k): b(v) for k, v in pf.key_value_metadata.items() if b(k) not in (b"pandas", b"PANDAS_ATTRS")}
@@ -311,4 +316,4 @@ def coverage_extra(agg):
 
 
 def required(tier):
-    return {"updates_verified": 300, "deltaclass:-1..-7": 15, "deltaclass:<=-8": 15, "deltaclass:+1..+7": 15, "deltaclass:>=+8": 15, "deltaclass:0": 5, "multi_key_removals": 10, "frames_with_attrs": 20, "refused_updates": 20, "updates_with_unchanged_keys": 30, "updates_on_derived_handles": 200}
+    return {"updates_verified": 300, "deltaclass:-1..-7": 15, "deltaclass:<=-8": 15, "deltaclass:+1..+7": 15, "deltaclass:>=+8": 15, "deltaclass:0": 5, "multi_key_removals": 10, "frames_with_attrs": 20, "refused_updates": 20, "updates_with_unchanged_keys": 30, "updates_on_derived_handles": 200, "callers_dicts_compared": 100}
